@@ -55,6 +55,9 @@ class Opts:
     enums: bool = True
     array_params: bool = False
     min_ops: int = 1
+    always_opid: bool = False
+    enum_params: bool = True
+    typed_headers: bool = False     # header parameters of non-string type (F39)
     name_clash: bool = False        # property names that class-case to a schema name / parent prefix (F36, F37)
 
 
@@ -207,7 +210,7 @@ def gen_body_schema(r: random.Random, o: Opts, schemas: dict) -> dict:
 def gen_operation(r: random.Random, o: Opts, schemas: dict, path_vars: list[str], path_level: list[dict], idx: int) -> dict:
     op: dict = {}
     k = r.random()
-    if k < 0.75:
+    if k < 0.75 or o.always_opid:
         op["operationId"] = r.choice(["get", "list", "create", "update", "delete", "fetch", "search"]) + r.choice(["User", "Pets", "_order", "Item", "Report", "-thing"]) + (str(idx) if not o.dup_opids or r.random() < 0.6 else "")
     if r.random() < 0.8:
         t = r.choice(TAGS)
@@ -232,9 +235,11 @@ def gen_operation(r: random.Random, o: Opts, schemas: dict, path_vars: list[str]
         if san in used or san in ("body", "files", "form_data", "bytes_content", "content_type"):
             continue
         used.add(san)
-        sch = _prim(r, o, allow_enum=True)
+        sch = _prim(r, o, allow_enum=o.enum_params)
         if sch.get("format") == "byte":
             sch.pop("format")
+        if loc == "header" and not o.typed_headers:
+            sch = {"type": "string"}
         if o.array_params and loc == "query" and r.random() < 0.2:
             sch = {"type": "array", "items": {"type": "string"}}
         p = {"name": name, "in": loc, "schema": sch}
